@@ -6,6 +6,7 @@ CONSTANTS
   Icpts <- MCIcpts
   Variant = "urev"
   Kinds = {"bep"}
+  MaxEdits = 0
 INVARIANT TypeOK
 INVARIANT ClampRefines
 INVARIANT NotBelowMinimum
@@ -14,4 +15,5 @@ INVARIANT BepDifference
 INVARIANT BepViaReaction
 INVARIANT BepUandHSameBarrier
 INVARIANT BepOffsetIsForwardBarrier
+INVARIANT EditedEqualsFresh
 CHECK_DEADLOCK FALSE
